@@ -652,9 +652,6 @@ def check_design(case):
             require(float(pre.max() - pre.min()) <= 1e-12, 'column %d (%s) changes before the '
                     'first onset %.2f s of its condition' % (c, name, min(ons)),
                     'design:column-condition')
-            require(abs(float(pre[0]) - float(dm[:, c].min())) <= 0.2, 'column %d (%s): baseline '
-                    '%.3f far from the column minimum %.3f' % (c, name, pre[0], dm[:, c].min()),
-                    'design:column-condition')
         peak_t = times[int(np.argmax(dm[:, c]))]
         require(min(ons) < peak_t, 'column %d (%s) peaks at %.2f s, before its first onset %.2f s'
                 % (c, name, peak_t, min(ons)), 'design:column-condition')
@@ -852,23 +849,23 @@ def classify_spm(case):
 
 
 SUBCHECKS = [
-    SubCheck('bids', bids_case(), check_bids, classify_bids, quick=800,
+    SubCheck('bids', bids_case(), check_bids, classify_bids, quick=800, thorough=8000,
              doc='parse == generated entities, parse->format identity, _replace, meta / events / '
                  'table / mri sibling look-ups change exactly the requested entities (paths, '
                  're-parsed attributes, real files read back)'),
     Enumeration('bids_presence', bids_enum, check_bids, classify_bids,
                 doc='all 64 presence/absence combinations of ses, task, run, space, desc, '
                     'derivative x 3 value sets'),
-    SubCheck('meadows', meadows_case(), check_meadows, classify_meadows, quick=600,
+    SubCheck('meadows', meadows_case(), check_meadows, classify_meadows, quick=600, thorough=8000,
              doc='three file shapes: values by label pair, labels (sorted / file order), '
                  'participant / task / task_index / experiment descriptors, file-name segments'),
-    SubCheck('mne', mne_case(), check_mne, classify_mne, quick=300,
+    SubCheck('mne', mne_case(), check_mne, classify_mne, quick=300, thorough=3000,
              doc='EpochsArray -> TemporalDataset: data, event codes, channel names, times; '
                  'BIDS file-name descriptors; FIF round trip'),
-    SubCheck('design', design_case(), check_design, classify_design, quick=300,
+    SubCheck('design', design_case(), check_design, classify_design, quick=300, thorough=3000,
              doc='shape, flags, centred, range 1, dof, confound columns, column<->condition, '
                  'row-order and other-condition independence'),
-    SubCheck('spm', spm_case(), check_spm, classify_spm, quick=600,
+    SubCheck('spm', spm_case(), check_spm, classify_spm, quick=600, thorough=8000,
              doc='spm_filter == Y - X0 (X0\' Y) per run, X0\'out = 0, input untouched; '
                  'get_residuals on top of it; relocate_file'),
 ]
